@@ -627,7 +627,8 @@ pub fn build_info(units: &[UnitSpec], in_types: bool) -> BuiltInfo {
                 for (i, (_n, f, _ic)) in ab.attrs.iter().enumerate() {
                     attr_offsets.push(w.len() - ustart);
                     let v = d.vals.get(i).cloned().unwrap_or(AV::U(0));
-                    let v = resolve_av(&v, *f, lay, sibling_target);
+                    // a sibling pointer in DW_FORM_ref_addr is an offset from the start of the section
+                    let v = resolve_av(&v, *f, lay, if *f == F_REF_ADDR { ustart + sibling_target } else { sibling_target });
                     encode_form(*f, &v, &u.cfg, w);
                 }
                 let end = w.len() - ustart;
